@@ -1,0 +1,7 @@
+//go:build verif
+
+package encoding
+
+// VerifC22MaximumAllowedMessageSize exposes the stream decoder's message size
+// limit to the verification harness.
+const VerifC22MaximumAllowedMessageSize = protobufDecoderMaximumAllowedMessageSize
